@@ -1087,6 +1087,10 @@ def iter_elements(model, ex, it, st):
         model.map_facts(ex, it, st)
         ks = map_keys(it.term)
         return ("symbolic", seq_len(ks), lambda j: V(seq_at(ks, j, it.ty.key), it.ty.key))
+    ty_ = it.ty.inner if isinstance(it.ty, OptT) else it.ty
+    if isinstance(ty_, ObjT) and ty_.name == "Json" and hasattr(model, "json_seq"):
+        q = model.json_seq(ex, V(it.term, ty_), st)
+        return ("symbolic", seq_len(q.term), lambda j: V(seq_at(q.term, j, q.ty.elem), q.ty.elem))
     raise Unsupported(f"iteration over {it!r}")
 
 
@@ -1167,6 +1171,13 @@ def _b_tuple(model, ex, args, kwargs, st, node):
 def _b_getattr(model, ex, args, kwargs, st, node):
     if len(args) >= 2 and args[1].ty is STR and z3.is_string_value(args[1].term):
         return ex.getattr(args[0], args[1].term.as_string(), st, node)
+    if len(args) == 2 and args[0].ty is PY and isinstance(args[0].py, Native):
+        nm = getattr(args[0].py.obj, "__name__", type(args[0].py.obj).__name__)
+        key = args[1] if args[1].ty is STR else None
+        if key is None and hasattr(model, "json_seq"):
+            key = V(fn("json.unstr", Ref, z3.StringSort())(args[1].term), STR)
+        if key is not None:
+            return V(fn("native.getattr." + nm, z3.StringSort(), Ref)(key.term), ObjT("Opaque"))
     raise Unsupported("getattr with a computed name")
 
 
@@ -1177,6 +1188,34 @@ def _b_cast(model, ex, args, kwargs, st, node):
 def _b_set(model, ex, args, kwargs, st, node):
     if not args:
         return pyv(("emptyset",))
+    g = args[0]
+    if g.ty is PY and isinstance(g.py, tuple) and g.py and g.py[0] == "genexp":
+        # {elt(x) for x in it}: membership characterised pointwise
+        _, gn, env = g.py
+        if len(gn.generators) != 1 or gn.generators[0].ifs:
+            raise Unsupported("set(genexp) with filters / nested loops")
+        comp = gn.generators[0]
+        s2 = st.fork()
+        s2.env = dict(env)
+        it = ex.ev(comp.iter, s2)
+        kind, n, at = iter_elements(model, ex, it, s2)[:3] if iter_elements(model, ex, it, s2)[0] == "symbolic" else (None, None, None)
+        if kind is None:
+            raise Unsupported("set(genexp) over a concrete iterable")
+        j = fresh("sj", z3.IntSort())
+        s3 = s2.fork()
+        ex.assign(comp.target, at(j), s3)
+        n0 = len(s3.pc)
+        val = ex.ev(gn.elt, s3)
+        ety = val.ty
+        res = V(fresh("setcomp", Ref), SetT(ety))
+        x = z3.Const("sx", ety.sort())
+        for f in s3.pc[n0:]:
+            st.assume(z3.ForAll([j], z3.Implies(z3.And(0 <= j, j < n), f)))
+        for f in s2.pc[len(st.pc):]:
+            st.assume(f)
+        st.assume(res.term != NONE)
+        st.assume(z3.ForAll([x], set_mem(res.term, x, ety) == z3.Exists([j], z3.And(0 <= j, j < n, val.term == x))))
+        return res
     raise Unsupported("set(iterable)")
 
 
@@ -1197,7 +1236,7 @@ def _b_list(model, ex, args, kwargs, st, node):
 BUILTINS = {
     "isinstance": _b_isinstance, "len": _b_len, "bool": _b_bool, "str": _b_str, "any": _b_any, "all": _b_all,
     "next": _b_next, "tuple": _b_tuple, "getattr": _b_getattr, "cast": _b_cast, "issubclass": _b_issubclass,
-    "set": _b_set, "dict": _b_dict, "list": _b_list,
+    "set": _b_set, "frozenset": _b_set, "dict": _b_dict, "list": _b_list,
 }
 
 
@@ -1249,6 +1288,10 @@ def _b_quant(kind):
             for fct in facts:
                 st.assume(z3.ForAll([ov], fct))
             return V(z3.ForAll([ov], t) if kind == "forall" else z3.Exists([ov], t), BOOL)
+        elif len(args) == 2 and isinstance(args[1].ty, ObjT) and args[1].ty.name == "Json" and hasattr(model, "json_seq"):
+            seq = model.json_seq(ex, args[1], st)
+            rng = z3.And(0 <= j, j < seq_len(seq.term))
+            t, facts = _lambda_body(model, ex, lam, st, [V(seq_at(seq.term, j, seq.ty.elem), seq.ty.elem)])
         elif len(args) == 2 and isinstance(args[1].ty, SeqT):          # forall(lambda x: ..., seq)
             seq = args[1]
             rng = z3.And(0 <= j, j < seq_len(seq.term))
@@ -1351,7 +1394,10 @@ def _native_symbolic_call(self, ex, f, args, kwargs, st, node):
     if rty is None:
         return None
     ty = parse_type(rty)
-    return V(fresh("native", ty.sort()), ty)
+    terms = [a for a in args if a.term is not None]
+    if len(terms) != len(args) or kwargs:
+        return V(fresh("native", ty.sort()), ty)
+    return V(fn("native." + name, *[a.ty.sort() for a in terms], ty.sort())(*[a.term for a in terms]), ty)
 
 
 Model.call = _call
@@ -1364,6 +1410,8 @@ def _call_node(self, ex, e, st):
     if isinstance(e.func, ast.Name) and e.func.id in ("implies", "iff") and e.func.id not in st.env:
         a = ex.ev_truth(e.args[0], st)
         if e.func.id == "implies":
+            if z3.is_false(z3.simplify(a)):
+                return V(z3.BoolVal(True), BOOL)       # vacuous: the consequent need not even be well-typed on this path
             ex.guards.append(a)
             b = ex.ev_truth(e.args[1], st)
             ex.guards.pop()
